@@ -27,7 +27,7 @@ RULE = ("histories = ALL operation sequences of a family's alphabet up to its le
 
 GROUPS = {"quick": ["quick"], "thorough": ["quick", "thorough_a", "thorough_b"]}
 WRITES = {"set", "setstate", "clear", "edit", "writeback"}
-PROBE = {"op": "probe", "path": [], "val": {"t": "s", "v": 99}, "k": "", "h": "", "sv": ""}
+PROBE = {"op": "probe", "path": [], "val": {"t": "s", "v": 0}, "k": "", "h": "", "sv": ""}     # StateStore.tla: Default
 WHAT = {
     "shares": "InMemoryStateStore.get_state(): model_copy() shares DictState._data, so snapshot[k] = v changes the store",
     "numtop": "a numeric-looking first path segment on a DictState store addresses the integer key 0 instead of the key \"0\"",
